@@ -117,9 +117,9 @@ def _child(job, extractor, conn):
             if csvs:
                 with open(os.path.join(d, csvs[0])) as f:
                     res["summary_csv"] = f.read()
-            if extractor is not None and rc == 0 and "nng" in captured:
+            if extractor is not None and ((rc == 0 and "nng" in captured) or getattr(extractor, "on_failure", False)):
                 try:
-                    res["extract"] = extractor(captured["nng"], captured["arch"], res)
+                    res["extract"] = extractor(captured.get("nng"), captured.get("arch"), res)
                 except BaseException:
                     res["extract_error"] = traceback.format_exc()
         finally:
